@@ -135,7 +135,10 @@ func cat(xs ...[]op) []op {
 	return out
 }
 
-var lives = []string{"fresh", "clone", "clone-then-config", "changed", "switch", "clone-reconfig", "fork", "usertls"}
+var lives = []string{"fresh", "clone", "clone-then-config", "changed", "switch", "clone-reconfig", "fork", "usertls", "twohosts", "closereq"}
+
+// requests to the origin's name h (0 = localhost, 1 = 127.0.0.1), optionally carrying Connection: close
+func rq(h int, cl bool) []op { return []op{{K: "req", H: h, C: cl}} }
 
 // configurations of caller-supplied TLS functions (SetDialTLS / SetTLSHandshake)
 var userSpecs = []tlsSpec{
@@ -222,6 +225,35 @@ func matrix(specs []srvSpec) []cell {
 									ops = cat(tlsOps(setter, ts.T, nil), po, []op{{K: "handshake", TLS: &us2}, {K: "dialtls", TLS: &us}}, reqs(2),
 										[]op{{K: "dialtls", TLS: &tlsSpec{Nil: true}}, {K: "closeidle"}}, reqs(2))
 								}
+							case "twohosts":
+								// the same origin under two authorities: connection caches are per authority, the settings
+								// are the client's - nothing of a connection to one name may show in a connection to the other
+								a, b := (si+ti+force)%2, 1-(si+ti+force)%2
+								switch (si + 2*ti + force) % 3 {
+								case 0:
+									ops = cat(tlsOps(setter, ts.T, nil), po, rq(a, false), rq(b, false), rq(a, false), rq(b, false))
+								case 1: // settings changed between the two names, connections dropped
+									ops = cat(tlsOps(setter, other.T, nil), po, rq(a, false), rq(b, false), tlsOps(setter, ts.T, &other.T),
+										[]op{{K: "closeidle"}}, rq(b, false), rq(a, false))
+								case 2: // forcing switched between the two names, a clone inherits
+									f1 := (force + 1) % 3
+									ops = cat(tlsOps(setter, ts.T, nil), po, rq(a, false), []op{{K: "force", N: f1}}, rq(b, false),
+										[]op{{K: "force", N: force}, {K: "clone"}}, rq(b, false), rq(a, false))
+								}
+							case "closereq":
+								// requests that ask for a connection of their own (Connection: close) between ordinary ones
+								h2c := []op{}
+								if (si+ti)%3 == 0 {
+									h2c = []op{{K: "h2c", B: true}} // h2c concerns http:// only: an https:// request must still be TLS-protected
+								}
+								switch (si + ti + force) % 3 {
+								case 0:
+									ops = cat(tlsOps(setter, ts.T, nil), h2c, po, rq(0, true), rq(0, true), rq(0, false))
+								case 1:
+									ops = cat(tlsOps(setter, ts.T, nil), h2c, po, rq(0, false), rq(0, true), rq(0, false), rq(1, true))
+								case 2:
+									ops = cat(tlsOps(setter, ts.T, nil), po, rq(0, false), h2c, rq(0, true), []op{{K: "closeidle"}}, rq(0, true), rq(0, false))
+								}
 							case "fork":
 								// a differently configured clone is used and dropped; the original must not notice
 								acts := []*op{nil, {K: "settls", TLS: &other.T}, {K: "skip", B: !ts.T.Skip}, {K: "root", N: 1},
@@ -286,7 +318,7 @@ func matrix(specs []srvSpec) []cell {
 					if h2c == "on-clone" {
 						ops = cat(ops, []op{{K: "clone"}})
 					}
-					ops = cat(ops, reqs(2))
+					ops = cat(ops, reqs(1), rq(0, true), rq(1, true))
 					cells = append(cells, cell{Shape: fmt.Sprintf("https-h2c-f%d-%s-%s", force, ts.Name, h2c), Spec: sp, Ops: ops})
 				}
 			}
@@ -316,7 +348,7 @@ func matrix(specs []srvSpec) []cell {
 					if h2c == "on-clone" {
 						ops = cat(ops, reqs(1), []op{{K: "clone"}})
 					}
-					ops = cat(ops, reqs(3))
+					ops = cat(ops, reqs(2), rq(0, true), rq(1, false))
 					cells = append(cells, cell{Shape: fmt.Sprintf("plain-f%d-h3%v-h2c-%s", force, h3, h2c), Spec: sp, Ops: ops})
 				}
 			}
@@ -338,7 +370,11 @@ func randomWalk(rng *hk.Rand, specs []srvSpec) cell {
 	for i := 0; i < n; i++ {
 		switch k := rng.Intn(20); {
 		case k < 8:
-			ops = append(ops, op{K: "req"})
+			r := op{K: "req", C: rng.Chance(20)}
+			if rng.Chance(30) {
+				r.H = 1
+			}
+			ops = append(ops, r)
 		case k < 11:
 			ops = append(ops, op{K: "force", N: rng.Intn(4)})
 		case k < 12:
